@@ -3,6 +3,8 @@ package types
 import (
 	"time"
 
+	gogotypes "github.com/gogo/protobuf/types"
+
 	sdk "github.com/cosmos/cosmos-sdk/types"
 	sdkerrors "github.com/cosmos/cosmos-sdk/types/errors"
 )
@@ -80,6 +82,14 @@ func ValidatePricing(pricing Pricing) error {
 	for i, p := range pricing.PromotionsByTime {
 		if !p.EndTime.After(p.StartTime) || (i > 0 && p.StartTime.Before(pricing.PromotionsByTime[i-1].EndTime)) {
 			return sdkerrors.Wrapf(ErrInvalidPricing, "invalid timing promotion %d", i)
+		}
+
+		// the times must be storable: years 1 to 9999 (the date-time format also admits year 0)
+		if _, err := gogotypes.TimestampProto(p.StartTime); err != nil {
+			return sdkerrors.Wrapf(ErrInvalidPricing, "invalid timing promotion %d: %s", i, err)
+		}
+		if _, err := gogotypes.TimestampProto(p.EndTime); err != nil {
+			return sdkerrors.Wrapf(ErrInvalidPricing, "invalid timing promotion %d: %s", i, err)
 		}
 	}
 
